@@ -69,6 +69,12 @@
 (* initial state) and TLC explores all of them.  Fuel bounds the number of *)
 (* blocks executed per behaviour.                                          *)
 (*                                                                         *)
+(* The membership predicate the machine evaluates in every state is        *)
+(* FastInGammaV (linear-time comparisons, singleton intervals by equality);*)
+(* the REFERENCE definition is InGammaV = DataDom!InGammaDConc over        *)
+(* Interval!InGamma, and mc/MC_PiMonitor checks that the two agree.  Rho   *)
+(* is fixed along a behaviour and carried in the variable rho.             *)
+(*                                                                         *)
 (* REPORTING.  The variable ok caches the verdict of the current state.    *)
 (* Entering a violating state prints                                       *)
 (*   <<"BAD", case, init, kind, block index, register, steps>>             *)
